@@ -513,11 +513,18 @@ func (d *Data) sendBlocksVolume(ctx *datastore.VersionedCtx, w http.ResponseWrit
 	timedLog := dvid.NewTimeLog()
 	defer timedLog.Infof("SendBlocks %s, span x %d, span y %d, span z %d", blocksoff, blocksdims.Value(0), blocksdims.Value(1), blocksdims.Value(2))
 
-	numBlocks := int(blocksdims.Prod())
+	if err := dvid.CheckBlockRowScans(int64(blocksdims.Value(1)), int64(blocksdims.Value(2))); err != nil {
+		return err
+	}
 	wg := new(sync.WaitGroup)
 
-	// launch goroutine that will stream blocks to client
-	ch := make(chan blockSend, numBlocks)
+	// launch goroutine that will stream blocks to client; the channel only decouples the
+	// transcoding goroutines from the writer, so its size need not follow the request
+	chanSize := int64(1000)
+	if numBlocks := subvol.NumVoxels() / d.BlockSize().Prod(); numBlocks < chanSize {
+		chanSize = numBlocks
+	}
+	ch := make(chan blockSend, chanSize)
 	var sendErr error
 	go func() {
 		for data := range ch {
